@@ -324,6 +324,10 @@ def url_dispatch(si: int, ext: int, with_opts: bool) -> bool:
             return False
         if want == 'http' and (inst.a[0] != 'host.example' or inst.a[2] != '/data' + suffix or inst.kw.get('ssl') != (scheme == 'https')):
             return False
+        if want == 'http' and inst.a[1] != (443 if scheme == 'https' else 80):
+            return False                        # no port in the URL: the scheme's own default port
+        if want == 'ftp' and inst.kw.get('port') != 21:
+            return False
         if want == 'ftp' and (inst.a[0] != 'host.example' or inst.a[1] != '/data' + suffix or inst.kw.get('ssl') != (scheme == 'sftp')):
             return False
     return True
